@@ -2080,6 +2080,25 @@ class Interp:
             m_ = self.proj.method(c_, pos[1]) if c_ is not None else (self._class_method(o_.kind, pos[1]) if o_.attrs else None)
             if m_ is not None:
                 return BoundMethod(o_, pos[1])
+            # a name the class never binds (no method, no class constant, no `self.<name> = ...` anywhere along the MRO):
+            # getattr's default, or AttributeError
+            if c_ is None and o_.kind != "obj":
+                cs_ = [k_ for q_, k_ in self.proj.classes.items() if q_.split(".")[-1] == o_.kind]
+                c_ = cs_[0] if len(cs_) == 1 else None
+            if c_ is not None and pos[1].startswith("_") is not None:
+                bound = False
+                for k_ in self.proj.mro(c_):
+                    for n_ in ast.walk(k_.node):
+                        if isinstance(n_, ast.Attribute) and n_.attr == pos[1] and isinstance(n_.ctx, ast.Store):
+                            bound = True
+                        if isinstance(n_, (ast.Assign, ast.AnnAssign)) and n_ in k_.node.body:
+                            tg_ = n_.targets if isinstance(n_, ast.Assign) else [n_.target]
+                            if any(isinstance(t_, ast.Name) and t_.id == pos[1] for t_ in tg_):
+                                bound = True
+                if not bound:
+                    if len(pos) > 2:
+                        return pos[2]
+                    raise RaiseEx("AttributeError", "%r object has no attribute %r" % (c_.name, pos[1]), node)
         if name == "getattr":
             o, a = pos[0], pos[1]
             if isinstance(o, (Opaque, Sym)) and isinstance(a, str):
